@@ -147,7 +147,7 @@ example :
     let c : Setting := ⟨"c", "ns", 1, some "eds", ⟨[], []⟩, false, [], "", ""⟩
     let a : Setting := ⟨"s", "ns", 0, some "eds", ⟨[], []⟩, false, [], "", ""⟩
     let b : Setting := { a with badSelector := true }
-    let n : Node := ⟨"n", [], [], [], ""⟩
+    let n : Node := ⟨"n", [], [], [], "", []⟩
     settingReconcile a [n] [c, a, b] = ("error", "conflict with another ExtendedDaemonsetSetting: ") ∧
     settingReconcile a [n] [c, b, a] = ("error", "conflict with another ExtendedDaemonsetSetting: c") := by
   decide
@@ -180,7 +180,7 @@ example :
 reconciled): the instance is then never met by the scan. -/
 example :
     let a : Setting := ⟨"s", "ns", 0, some "eds", ⟨[], []⟩, true, [], "", ""⟩
-    let n : Node := ⟨"n", [], [], [], ""⟩
+    let n : Node := ⟨"n", [], [], [], "", []⟩
     settingReconcile a [n] [] = ("valid", "") := by decide
 
 /-! ### A well-formed setting that overlaps no other is valid -/
@@ -241,7 +241,7 @@ theorem C18_lonely_valid (inst : Setting) (nodes : List Node) (all : List Settin
 itself. -/
 example :
     let a : Setting := ⟨"s", "ns", 0, some "eds", ⟨[], []⟩, false, [], "", ""⟩
-    let n : Node := ⟨"n", [], [], [], ""⟩
+    let n : Node := ⟨"n", [], [], [], "", []⟩
     (settingReconcile a [n] [a, a]).1 = "error" := by decide
 
 /-! ### The hypotheses are satisfiable: two overlapping settings, exactly one valid -/
@@ -252,8 +252,8 @@ private def exOld : Setting := ⟨"old", "ns", 10, some "eds", ⟨[⟨"pool", "a
 private def exNew : Setting := ⟨"new", "ns", 20, some "eds", ⟨[], []⟩, false, [], "", ""⟩
 private def exBad : Setting := ⟨"bad", "ns", 30, some "eds", ⟨[], []⟩, true, [], "", ""⟩
 private def exElse : Setting := ⟨"else", "ns", 5, some "eds", ⟨[⟨"pool", "b"⟩], []⟩, false, [], "", ""⟩
-private def exNodeA : Node := ⟨"node-a", [⟨"pool", "a"⟩], [], [], ""⟩
-private def exNodeC : Node := ⟨"node-c", [⟨"pool", "c"⟩], [], [], ""⟩
+private def exNodeA : Node := ⟨"node-a", [⟨"pool", "a"⟩], [], [], "", []⟩
+private def exNodeC : Node := ⟨"node-c", [⟨"pool", "c"⟩], [], [], "", []⟩
 
 /-- `exOld` (pool=a) and `exNew` (selects everything) overlap on `node-a`: the newest is valid, the
 other reports the conflict. The unusable `exBad` is in error and does not disturb the others (F9).
